@@ -47,8 +47,13 @@ pub fn run(case: &Value) -> Value {
             {
                 let f = mapper(case["mapper"].as_str().unwrap());
                 let mut w = mapped(&mut out, u8::try_from(case["marker"].as_u64().unwrap()).unwrap(), move |b| f(b));
-                for c in case["chunks"].as_array().unwrap() {
+                for (ci, c) in case["chunks"].as_array().unwrap().iter().enumerate() {
                     w.write_all(&bytes_of(c)).unwrap();
+                    // flush() between writes (auto-flushing wrappers, live progress output): it flushes the inner
+                    // writer and is no boundary for the mapping
+                    if case["flush_after"].as_array().is_some_and(|l| l.iter().any(|x| x.as_u64() == Some(ci as u64))) {
+                        w.flush().unwrap();
+                    }
                 }
                 if case["finish"] == "unwrap" {
                     let _ = w.unwrap();
